@@ -13,6 +13,17 @@ handlers / callbacks received, in order.  In Coq (vm_compute):
          frames delivers what the real receiver delivered;
   bit 2  what was delivered == map msg_call (sent) - `pack data` computed in Coq from the sent
          values only; call() results == call_result (pack r); callback arguments == pack r.
+Acknowledgement registries (E2E/AckTable.v): per scenario and sender one `Acks` case = the timeline
+of that sender's registry (callbacks registered, ACKs arriving, call()s ending, in the order they
+happened).  `gen_late_scenario` gives every operation a delivery budget, so that call()s time out
+while their ACK is in flight and ACKs arrive late, interleaved with later emits / calls:
+  bit 1  the real registry of AckTable.v (per-key counter, routing by (key, id)) run on the ACK
+         packets as they arrived draws the same ids, invokes the same callbacks (closures of
+         call() included) and ends every call() the same way;
+  bit 2  the ideal registry (an ACK invokes exactly the outstanding registration it replies to),
+         run on `pack r` of the handlers' return values, invokes the same application callbacks
+         with the same arguments and ends every call() the same way: TimeoutError exactly when
+         the ACK replying to it had not arrived, otherwise call_result of its OWN handler's value.
 """
 import asyncio
 import copy
@@ -163,6 +174,68 @@ def gen_scenario(rng, cfg, thorough):
             'coro': coro, 'catchall': rng.random() < 0.25, 'nested': nested}
 
 
+def gen_late_scenario(rng, cfg, thorough):
+    """Acknowledgements that arrive LATE.  Mostly one sender (so that its ACKs pile up on few
+    namespaces), a sequence of call() / emit-with-callback / plain emits; every operation has a
+    delivery budget per direction (loopback.Loopback.budget): how many frames may be delivered
+    while it runs (inside the wait() of its call(), and after its API call has returned).
+      timely      no limit: the event is handled and the ACK comes back at once
+      late-ack    the event is delivered and handled, the ACK (and everything else that travels
+                  back) stays in flight: a call() times out
+      late-event  the event itself stays in flight (all of it, or all but its first frame)
+      partial     the first 1-3 frames travelling back are delivered: ACKs of EARLIER operations
+                  arrive (late) inside this operation, its own ACK possibly not
+    Whatever is in flight is delivered, in order, during later operations or at the end."""
+    mode, ser, b64 = cfg
+    nss = rng.sample(NAMESPACES, rng.choice([1, 1, 2]))
+    nmax = 10 if thorough else 6
+    async_handlers = rng.random() < 0.6
+    main = rng.choice(['c2s', 'c2s', 's2c'])
+    other = {'c2s': 's2c', 's2c': 'c2s'}
+    ops = []
+    for j in range(rng.randrange(2, nmax + 1)):
+        d = main if rng.random() < 0.8 else other[main]
+        kind = rng.choice(['call', 'call', 'call', 'emit', 'emit', 'send'])
+        if kind == 'call' and d == 's2c' and not async_handlers:
+            kind = 'emit'          # Server.call() raises RuntimeError unless async_handlers
+        ev = 'message' if kind == 'send' else rng.choice(EVENTS + [values.gen_text(rng, 6)])
+        if ev in ('connect', 'disconnect', 'connect_error', '__disconnect_final', '*'):
+            ev = 'ev'
+        ev = _sanitize(ev, ser)
+        ack = kind == 'call' or rng.random() < 0.85
+        ret = gen_payload(rng, ser) if rng.random() < 0.6 else rng.choice(
+            ['r%d' % j, ('r%d' % j, j), ('r%d' % j,), {'op': j}, [j], j])
+        how = rng.choice(['timely', 'late-ack', 'late-ack', 'late-event', 'partial'])
+        fwd, back = d, other[d]
+        budget = {'timely': {fwd: None, back: None},
+                  'late-ack': {fwd: None, back: 0},
+                  'late-event': {fwd: rng.choice([0, 0, 1]), back: 0},
+                  'partial': {fwd: None, back: rng.choice([1, 1, 2, 3])}}[how]
+        ops.append({'dir': d, 'kind': kind, 'event': ev, 'data': gen_payload(rng, ser),
+                    'ns': nss[0] if rng.random() < 0.75 else rng.choice(nss), 'ack': ack, 'ret': ret,
+                    'batch': rng.random() < 0.3, 'hold': kind != 'call' and rng.random() < 0.15,
+                    'first': rng.choice(['c2s', 's2c']), 'budget': budget, 'how': how})
+    return {'cfg': list(cfg), 'namespaces': nss, 'ops': ops, 'async_handlers': async_handlers,
+            'coro': rng.random() < 0.5, 'catchall': rng.random() < 0.25, 'nested': False, 'late': True}
+
+
+def late_stats(sc, out):
+    """(call()s that timed out, ACKs that reached a call() after it had ended, ACKs of emits that
+    arrived during a later operation's call())."""
+    timeouts = late = 0
+    for d in ('c2s', 's2c'):
+        owners, n_ack, ended = ack_owner(out, d), 0, set()
+        for e in out['tl'][d]:
+            if e[0] == 'end':
+                ended.add(e[1])
+                timeouts += e[2][0] == 'raise' and e[2][1] == 'TimeoutError'
+            elif e[0] == 'ack':
+                owner = owners[n_ack] if n_ack < len(owners) else None
+                n_ack += 1
+                late += owner in ended
+    return timeouts, late
+
+
 # --------------------------------------------------------------------------- execution
 def pack_py(v):
     """Only used to classify violations (the checker computes `pack` in Coq)."""
@@ -184,14 +257,14 @@ async def _run(sc):
 
     def handler(direction, ns, ev, args, cid):
         """Called when a handler is entered; the ACK value is produced when it returns."""
-        op = pending[direction].pop(0) if pending[direction] else None
+        opk, op = pending[direction].pop(0) if pending[direction] else (None, None)
 
         def finish():
             if op is None:
                 return None
             if op['ack']:
                 back = 's2c' if direction == 'c2s' else 'c2s'
-                sent[back].append(('ack', copy.deepcopy(op['ret']), op['ns'], op.get('id')))
+                sent[back].append(('ack', copy.deepcopy(op['ret']), op['ns'], op.get('id'), opk))
             if 'ret_share' in op:
                 g = op['ret_share']
                 if g not in shared_ret:
@@ -227,11 +300,15 @@ async def _run(sc):
         d = op['dir']
         lb.batch = op['batch']
         lb.first = op.get('first', 'c2s')
+        # late acknowledgements: how many frames of each direction may be delivered during this
+        # operation (inside the wait() of its call() and when its API call has returned)
+        lb.budget = dict(op.get('budget') or {'c2s': None, 's2c': None})
         rec = {'cb': None, 'api': None}
         results.append(rec)
 
-        def cb(*args, _rec=rec):
+        def cb(*args, _rec=rec, _k=k, _d=d):
             _rec['cb'] = list(args)
+            lb.fired(_d, ('user', _k, list(args)))
         sender = lb.client if d == 'c2s' else lb.sio
         kw = {'namespace': None if (op['ns'] == '/' and k % 2) else op['ns']}
         if d == 's2c':
@@ -247,7 +324,7 @@ async def _run(sc):
                 originals.append((copy.deepcopy(op['data']), data))
         m = ['emit', op['event'], copy.deepcopy(op['data']), op['ns'], None]
         sent[d].append(m)
-        pending[d].append(op)
+        pending[d].append((k, op))
         if op['kind'] == 'call':
             fn, args = sender.call, (op['event'], data)
             kw['timeout'] = 1
@@ -264,10 +341,17 @@ async def _run(sc):
             _op['id'] = i
             _m[4] = i
         lb.id_hook[d] = hook
+        lb.issuing = k
+        after = None
+        if op['kind'] == 'call':
+            def after(res, _k=k, _d=d):
+                lb.tl[_d].append(['end', _k, res])
         try:
-            rec['api'] = await lb.api(fn, *args, _flush=not op.get('hold'), **kw)
+            rec['api'] = await lb.api(fn, *args, _flush=not op.get('hold'), _after=after, **kw)
         finally:
             lb.id_hook[d] = None
+            lb.issuing = None
+    lb.budget = {'c2s': None, 's2c': None}
     await lb.api(lambda: None)
     # With async_handlers=True the server runs each event handler in a task (thread) of its own,
     # by design concurrently with whatever the receive loop does next: an ACK that FOLLOWS an EVENT on
@@ -283,7 +367,7 @@ async def _run(sc):
     lb.rx = {d: [e[:-1] for e in lb.rx[d]] for d in lb.rx}
     out = {'sent': sent, 'wire': lb.wire, 'jtab': lb.jtab, 'rx': lb.rx, 'escaped': lb.escaped,
            'invoked': invoked, 'reordered': reordered, 'originals': originals,
-           'nested_deliveries': lb.nested_deliveries,
+           'nested_deliveries': lb.nested_deliveries, 'tl': lb.tl,
            'results': results, 'unhandled': {d: len(pending[d]) for d in pending}}
     return out
 
@@ -341,6 +425,121 @@ def stream_case(sc, out, d):
     return '(Stream %s %s %s %s %s %s %s)' % (
         ser, direction, clist([c_msg(m) for m in out['sent'][d]]), c_jtab(out['jtab'][d]), mt,
         clist([pv(w) for w in out['wire'][d]]), clist([c_rx(e) for e in out['rx'][d]]))
+
+
+def c_who(sc, k):
+    """The callback operation k registers: the closure of its call() or the application's callback."""
+    if k is None or not (0 <= k < len(sc['ops'])):
+        return '(WUser 999999%N)'
+    return '(%s %d%%N)' % ('WCall' if sc['ops'][k]['kind'] == 'call' else 'WUser', k)
+
+
+def ack_owner(out, d):
+    """FIFO correlation: the n-th ACK that reaches the sender of direction d is the n-th ACK its
+    peer sent (the Stream case of the opposite direction checks namespace, id and arguments of
+    exactly this pairing); -> operation index of each ACK of the timeline, in order."""
+    back = 's2c' if d == 'c2s' else 'c2s'
+    return [m[4] if len(m) > 4 else None for m in out['sent'][back] if m[0] == 'ack']
+
+
+def acks_case(sc, out, d):
+    """The timeline of the registry of direction d's sender as a Gallina `Acks` case (or None when
+    that sender registered no callback and received no ACK)."""
+    tl = out.get('tl', {}).get(d) or []
+    if not tl:
+        return None
+    owners = ack_owner(out, d)
+    evs, n_ack, rets = [], 0, []
+    for k, op in enumerate(sc['ops']):
+        if op['dir'] == d and op['ack']:
+            rets.append('(%d%%N, %s)' % (k, pv(op['ret'])))
+    for e in tl:
+        if e[0] == 'reg':
+            evs.append('(OReg %s %s %s)' % (cstr(e[2]), c_who(sc, e[1]), cZ(e[3])))
+        elif e[0] == 'ack':
+            owner = owners[n_ack] if n_ack < len(owners) else None
+            n_ack += 1
+            fired = []
+            for f in e[4]:
+                if f[0] == 'user':
+                    fired.append('(WUser %d%%N, Some %s)' % (f[1], clist([pv(x) for x in f[2]])))
+                else:
+                    fired.append('(WCall %d%%N, None)' % f[1])
+            cid = e[2] if (e[2] is None or isinstance(e[2], int)) else -2
+            evs.append('(OAck %s %s %s %s %s)' % (
+                'None' if owner is None else '(Some %s)' % c_who(sc, owner), cstr(e[1]), copt(cid, cZ),
+                clist([pv(x) for x in e[3]]), clist(fired)))
+        elif e[0] == 'end':
+            res = e[2]
+            if res[0] == 'ok':
+                try:
+                    evs.append('(OEnd %d%%N (Ok %s))' % (e[1], pv(res[1])))
+                except TypeError:
+                    evs.append('(OEnd %d%%N (Ok (PObj 0%%N)))' % e[1])
+            else:
+                evs.append('(OEnd %d%%N (Err %s))' % (e[1], res[1]))
+        else:       # a callback invoked outside any ACK dispatch: no machine produces that
+            evs.append('(OAck None [] None [] [(WUser 999999%N, None); (WUser 999999%N, None)])')
+    return '(Acks %s %s)' % (clist(rets), clist(evs))
+
+
+def ideal_py(sc, out, d):
+    """Python twin of AckTable.i_run restricted to what the application sees (as bit 2), ONLY to
+    name the kind of failure (the verdict is Coq's): -> list of (what, text)."""
+    tl = out.get('tl', {}).get(d) or []
+    owners = ack_owner(out, d)
+    ops = sc['ops']
+    live, got, diffs, n_ack = set(), {}, [], 0
+    for e in tl:
+        if e[0] == 'reg':
+            live.add(e[1])
+        elif e[0] == 'ack':
+            owner = owners[n_ack] if n_ack < len(owners) else None
+            n_ack += 1
+            known = owner is not None and 0 <= owner < len(ops)
+            exp_args = pack_py(ops[owner]['ret']) if known else None
+            seen = [(f[1], f[2]) for f in e[4] if f[0] == 'user']
+            closures = [f[1] for f in e[4] if f[0] == 'call']
+            expect = []
+            if owner in live:
+                live.discard(owner)
+                if ops[owner]['kind'] == 'call':
+                    got.setdefault(owner, exp_args)
+                else:
+                    expect = [(owner, exp_args)]
+            if known and e[3] != exp_args:
+                diffs.append(('ack-args', 'the ACK replying to operation %d carries %r, its handler returned %r'
+                              % (owner, e[3], ops[owner]['ret'])))
+            if seen != expect or [k for k in closures if k != owner]:
+                if expect and not seen and not closures:
+                    diffs.append(('callback-lost', 'the ACK replying to operation %d (emit with callback) invoked no '
+                                  'callback' % owner))
+                elif [k for k, _ in seen] != [k for k, _ in expect] or closures:
+                    diffs.append(('misrouted', 'the ACK replying to operation %r invoked the callback of operation(s) %s'
+                                  % (owner, [k for k, _ in seen] + closures)))
+                else:
+                    diffs.append(('callback-args', 'callback of operation %d received %r for handler return value %r'
+                                  % (owner, seen[0][1], ops[owner]['ret'])))
+        elif e[0] == 'end':
+            k, res = e[1], e[2]
+            if k in got:
+                a = got[k]
+                exp = ('ok', None if not a else a[0] if len(a) == 1 else tuple(a))
+            else:
+                exp = ('raise', 'TimeoutError')
+            if tuple(res[:2]) != exp:
+                what = 'call-result' if res[0] == 'ok' else 'call-timeout'
+                diffs.append((what, 'call() of operation %d ended with %r; its own handler returned %r and the ACK replying '
+                              'to it had %s when the wait ended' % (k, res[:2], ops[k]['ret'],
+                                                                    'arrived' if k in got else 'NOT arrived')))
+        else:
+            diffs.append(('stray-callback', repr(e)))
+    for k in sorted(live):
+        diffs.append(('callback-lost', 'operation %d: no ACK replying to it reached the sender' % k))
+    # name the failure by what the application sees first; a closure invoked by a foreign ACK
+    # ("misrouted" without a visible effect yet) ranks last
+    visible = [x for x in diffs if x[0] != 'misrouted' or 'callback of operation(s) []' not in x[1]]
+    return visible or diffs
 
 
 def classify(sc, out, d):
@@ -402,11 +601,19 @@ def cases_of(sc, out):
     cs = []
     for d in ('c2s', 's2c'):
         cs.append((stream_case(sc, out, d), 'stream', d))
+    timelines = set()
+    for d in ('c2s', 's2c'):
+        t = acks_case(sc, out, d)
+        if t is not None:
+            cs.append((t, 'acks', d))
+            timelines.add(d)
     for k, (op, rec) in enumerate(zip(sc['ops'], out['results'])):
         api = rec['api']
         if op['kind'] == 'call':
             if api[0] == 'ok':
                 cs.append(('(CallRes %s %s)' % (pv(op['ret']), pv(api[1])), 'call', k))
+            elif api[1] == 'TimeoutError' and op['dir'] in timelines:
+                pass        # whether this call() had to time out is decided by the Acks case of its sender
             else:
                 cs.append(('(CallRes %s (PObj 0%%N))' % pv(op['ret']), 'call', k))
         elif op['ack']:
@@ -429,6 +636,10 @@ def single_op_scenarios(sc):
         s = dict(sc)
         s['ops'] = [dict(op, batch=False, hold=False)]
         yield s
+        if op.get('budget'):
+            s = dict(sc)
+            s['ops'] = [dict(op)]
+            yield s
     groups = {}
     for op in sc['ops']:
         if 'share' in op:
@@ -437,6 +648,19 @@ def single_op_scenarios(sc):
         s = dict(sc)
         s['ops'] = [dict(op) for op in g]
         yield s
+    if sc.get('late'):
+        # late acknowledgements need at least the operation that left something in flight and a
+        # later one: every pair in order, then every prefix
+        n = len(sc['ops'])
+        for i in range(n):
+            for j in range(i + 1, n):
+                s = dict(sc)
+                s['ops'] = [dict(sc['ops'][i]), dict(sc['ops'][j])]
+                yield s
+        for j in range(3, n):
+            s = dict(sc)
+            s['ops'] = [dict(op) for op in sc['ops'][:j]]
+            yield s
     if sc.get('nested'):
         down = [op for op in sc['ops'] if op['dir'] == 's2c']
         for a, b in zip(down, down[1:]):
@@ -458,12 +682,20 @@ def run(chk):
                 '(emit / send / call, with and without ack, one packet per payload or batched, held back or not, specific or catch-all '
                 'handlers, plain or coroutine handlers, async_handlers on/off); payloads and handler return '
                 'values: None, (), tuples of 1-4, single values, JSON trees of depth<=4 with bytes leaves, '
-                'floats, 64-bit ints, non-BMP text.  A message is non-trivial when its payload has depth>=2 or '
+                'floats, 64-bit ints, non-BMP text.  Plus 10 (quick) / 60 (thorough) scenarios per configuration '
+                'with delivery budgets (2-6 / 2-10 operations, mostly call() and emit-with-callback of one sender on '
+                '1-2 namespaces; per operation: timely / ACK held back / event held back / only the first 1-3 frames '
+                'travelling back delivered), so that call()s time out and their ACKs arrive late, interleaved with later '
+                'operations; every scenario yields the registry timeline of each sender (E2E/AckTable.v).  '
+                'A message is non-trivial when its payload has depth>=2 or '
                 'bytes or is a tuple/None, or an ack is requested; distinct by (config, direction, kind, '
                 'payload skeleton, ack)')
     chk.trusted_base = [
         'Coq 8.16.1 kernel + vm_compute (case evaluation)',
-        'hand models E2E/Pipe.v, Codec/MsgPack.v on top of Codec/Packet.v (C01) and Server/Server.v helpers',
+        'hand models E2E/Pipe.v, E2E/AckTable.v, Codec/MsgPack.v on top of Codec/Packet.v (C01) and Server/Server.v helpers',
+        'late acknowledgements: the wait() of call() is the loopback\'s PumpEvent (delivers what the budget of the '
+        'operation allows, then reports whether the callback was invoked); ACK <-> operation pairing by FIFO position '
+        '(the Stream case of the opposite direction checks namespace, id and arguments of that pairing)',
         'json.loads and msgpack.dumps/loads are oracles (premises of the theorems; per-case tables recorded '
         'from the real libraries in the tie)',
         'engine.io (real packet/payload codecs in the loop) assumed FIFO and sequential per connection; '
@@ -480,10 +712,11 @@ def run(chk):
         'msgpack additionally: 64-bit ints and UTF-8 encodable text']
     chk.prove()
 
+    n_late = 60 if chk.thorough else 10
     cases, meta = [], []
     for cfg in CONFIGS:
-        for i in range(n_sc):
-            sc = gen_scenario(rng, cfg, chk.thorough)
+        for i in range(n_sc + n_late):
+            sc = gen_scenario(rng, cfg, chk.thorough) if i < n_sc else gen_late_scenario(rng, cfg, chk.thorough)
             out = run_scenario(sc)
             label = '%s/%s/%s' % (cfg[0], cfg[1], 'b64' if cfg[2] else 'raw')
             if 'error' in out:
@@ -502,6 +735,15 @@ def run(chk):
                 chk.dist('%s %s' % (op['dir'], op['kind']))
                 chk.dist('ack' if op['ack'] else 'no ack')
                 chk.dist('config ' + label)
+            if sc.get('late'):
+                chk.dist('scenario with delivery budgets (late acknowledgements)')
+                t, l = late_stats(sc, out)
+                chk.dist('call() timed out', t)
+                chk.dist('ACK delivered after its call() had timed out', l)
+                for d in ('c2s', 's2c'):
+                    if any(e[0] == 'end' and e[2][0] == 'raise' for e in out['tl'][d]):
+                        chk.count(1, ('late', label, d, tuple((e[0], e[1] if e[0] != 'ack' else len(e[4]))
+                                                              for e in out['tl'][d])), None)
             if out['escaped']:
                 chk.dist('escaped exception')
             if out.get('nested_deliveries'):
@@ -531,6 +773,16 @@ def describe(sc, out, kind, info):
                 '%s %s stream: what the peer\'s handlers / callbacks received differs from what was sent (%s); '
                 'sent=%s received=%s escaped=%r' % (label, info, what, _short(out['sent'][info]), _short(out['rx'][info]),
                                                     out['escaped'][:2]))
+    if kind == 'acks':
+        diffs = ideal_py(sc, out, info)
+        what = diffs[0][0] if diffs else 'ids'
+        tl = [e if e[0] != 'ack' else ['ack', e[1], e[2], e[4]] for e in out['tl'][info]]
+        return ('c02-%s-late-ack-%s' % (info, what),
+                '%s: acknowledgement registry of the %s (timeline of registrations, ACK arrivals and call() endings): %s; '
+                'timeline=%s handler return values=%r'
+                % (label, 'client' if info == 'c2s' else 'server',
+                   '; '.join(t for _, t in diffs[:3]) or 'ack ids / routing differ from the registry model (bit 1 only)',
+                   _short(tl), {k: op['ret'] for k, op in enumerate(sc['ops']) if op['dir'] == info and op['ack']}))
     if kind == 'unmodified':
         orig, after = out['originals'][info]
         return ('c02-payload-modified',
@@ -582,6 +834,15 @@ def report(chk, cases, meta, codes):
         if bits & 2:
             sig, text = describe(sc, out, kind, info)
             chk.violation(sig, text, {'scenario_repr': repr(clean(sc)), 'case': cases[idx]})
+        elif kind == 'acks':
+            chk.broken_obligation('correspondence: the registry model E2E/AckTable.v and the real %s %s disagree (ack ids '
+                                  'drawn, callback an ACK is routed to, or how a call() ended) without an effect the '
+                                  'application sees in this scenario or its reductions' % (
+                                      label_of(sc), 'client' if info == 'c2s' else 'server'))
+            chk.violation('c02-%s-acks-correspondence' % info,
+                          'model E2E/AckTable.v and implementation disagree (%s): %s' % (
+                              label_of(sc), _short([e if e[0] != 'ack' else ['ack', e[1], e[2], e[4]] for e in out['tl'][info]])),
+                          {'scenario_repr': repr(clean(sc)), 'case': cases[idx]}, no_input=True)
         else:
             chk.broken_obligation('correspondence: E2E/Pipe.v and the real %s pair disagree (frames on the wire or '
                                   'reassembly), no property violation found on single operations' % label_of(sc))
@@ -639,6 +900,14 @@ def replay(chk, data):
         print('   received:', out['rx'][d])
     print('escaped:', out['escaped'])
     print('api results:', [r['api'] for r in out['results']], 'callbacks:', [r['cb'] for r in out['results']])
+    for d in ('c2s', 's2c'):
+        if out['tl'][d]:
+            print('-- registry timeline of the %s (ACKs reply to operations %s):' % (
+                'client' if d == 'c2s' else 'server', ack_owner(out, d)))
+            for e in out['tl'][d]:
+                print('   ', e)
+            for what, text in ideal_py(sc, out, d):
+                print('    !!', what, '-', text)
     codes, errors = coqio.eval_cases('c02_replay', IMPORTS, '', 'c02case', terms, 'c02_eval', shard=40)
     for e in errors:
         print('coq error:', e)
@@ -647,6 +916,7 @@ def replay(chk, data):
                                                 ' [PROPERTY VIOLATED]' if c & 2 else ''))
     if any(c & 1 for c in codes.values()):
         i = min(i for i, c in codes.items() if c & 1)
-        rc, txt = coqio.eval_print('c02_replay', IMPORTS, '', ['c02_explain %s' % terms[i]])
+        fn = 'c02_explain_acks' if cs[i][1] == 'acks' else 'c02_explain'
+        rc, txt = coqio.eval_print('c02_replay', IMPORTS, '', ['%s %s' % (fn, terms[i])])
         print(txt[-3000:])
     return 1 if (codes or errors) else 0
